@@ -49,22 +49,25 @@ def run_configs(ctx, pid, mons, configs, heap="12g", workers=8):
     for name, args in configs:
         gf = "%s/g-%s.ndjson" % (wd, name)
         hargs = ["graph", gf] + args + ["events=" + ",".join(evs)]
+        if not any(a.startswith("maxnodes=") for a in args):
+            hargs.append("maxnodes=%d" % (400000 if ctx.thorough else 250000))
         out = recs.run_harness(ctx, exe, hargs)
         info = json.loads(out.strip().splitlines()[-1])
-        if not info.get("fixpoint"):
-            raise RuntimeError("no fix-point for %s: %s" % (name, info))
         cf = "%s/cfg-%s.json" % (wd, name)
         with open(cf, "w") as f:
             json.dump(cfg_json(args), f)
         stats, found = graph.check(ctx, "ProtoGraph", "ProtoGraph.cfg", gf, env={"VF_MON": mons, "VF_CFG": cf},
                                    tag="%s-%s" % (pid, name), heap=heap, workers=workers)
-        per[name] = {"graph_nodes": info["nodes"], "graph_edges": info["edges"], "fixpoint": True,
+        per[name] = {"graph_nodes": info["nodes"], "graph_edges": info["edges"], "fixpoint": bool(info.get("fixpoint")),
                      "product_states": stats["distinct"], "product_transitions": stats["generated"],
                      "tlc_runs": stats["runs"], "harness_args": " ".join(args)}
         states += stats["distinct"]
         trans += stats["generated"]
         nodes += info["nodes"]
         edges += info["edges"]
+        if not info.get("fixpoint") and not [f for f in found if f[0].startswith(pid + ":")]:
+            # bounded exploration only: a violation found on it is real (paths of the real code), absence proves nothing
+            raise RuntimeError("no fix-point within maxnodes for %s: %s (and no violation on the partial graph)" % (name, info))
         for sig, toks in found:
             if not sig.startswith(pid + ":"):
                 # a monitor of another property fired (it runs here only as an input of this one)
